@@ -662,6 +662,14 @@ impl PersistenceState {
 
         let old_path = wal_guard.path().to_path_buf();
 
+        // Periodic fsync only runs on later appends to the active segment, so the outgoing
+        // segment's unsynced tail must be flushed now or it would never become durable.
+        if matches!(self.fsync_policy, FsyncPolicy::Periodic(_)) {
+            wal_guard
+                .sync()
+                .context("Failed to fsync outgoing WAL segment before rotation")?;
+        }
+
         let new_wal_path = self
             .data_dir
             .join(format!("wal_{}.wal", HnswBackend::file_id()));
